@@ -105,6 +105,11 @@ def _judge(res, route, cases, outs, oracle, hist, checked, distinct):
                            "why": "the incremental evaluation did not return normally"})
             continue
         results, gl, tr, whole = parse_out(o)
+        if "TIMEOUT" in o or (oref is not None and "TIMEOUT" in oref):
+            # a piece ran into the evaluation's time budget (e.g. a loop that extends the list it ranges over): what it
+            # has done by then depends on the clock, not on the program
+            checked["skipped_time_budget"] = checked.get("skipped_time_budget", 0) + 1
+            continue
         why = None
         if kind in ("split", "stack-growth"):
             if whole.startswith("WHOLE OK"):
